@@ -305,7 +305,7 @@ def ill_formed(p):
 def gen_cases(ctx):
     rng = ctx.rng
     thorough = ctx.tier == "thorough"
-    n_db = 160 if thorough else 36
+    n_db = 220 if thorough else 54
     per_db = 16 if thorough else 12
     cases = []
     for d in range(n_db):
